@@ -724,11 +724,14 @@ pub fn c15_scn(name: &str, full: bool) -> ChatScn {
             acts.push(Act::Connect(3));
         } else if v.life[3] == Life::Live && v.infos[3].as_ref().map_or(false, |i| i.nick.is_none()) {
             acts.push(Act::Send(3, "NICK ursula".into()));
+        } else if v.life[3] == Life::Live {
+            // the claimant goes away again (whoever holds the nickname by then keeps it)
+            acts.push(Act::Eof(3));
         }
         acts
     }));
     s.focus = Focus { cats: ALL_CATS.to_vec(), relays: true, relay_verbs: Some(vec!["NICK"]), actor: true, actor_codes: Some(vec!["NICK", "433", "432", "ERROR"]), closes: false };
-    s.spec_skip = Some(Box::new(|a| !matches!(a, Act::Send(_, l) if l.starts_with("NICK"))));
+    s.spec_skip = Some(Box::new(|a| !matches!(a, Act::Send(_, l) if l.starts_with("NICK")) && !matches!(a, Act::Eof(3))));
     // "and nothing else": the server's counters of invisible users and operators are not touched by a rename
     s.invariants = vec!["membership-symmetry", "dangling-member", "rank-set", "dangling-wallops", "wallops-set", "invisible-count", "operators-count", "max-users"];
     s.state_oracle = Some(Box::new(c15_probes));
@@ -1000,6 +1003,11 @@ pub fn c16_lattice_case(bits: u32) -> Vec<Finding> {
     m!(w.send(0, "PART #p"));
     m!(w.send(1, "PART #p"));
     check_settings(&w, "after being emptied", &mut out);
+    // the users who left hold nothing of #p any more (both sides of the relation)
+    for (name, msg) in crate::spec::rep_invariants(&w.snapshot()) {
+        out.push(finding("lattice:invariant", format!("after both left (bits {:#x}): {}: {}", bits, name, msg)));
+    }
+    // and the quota counts only channels they are really in: with max_joins = 1 a new channel is admitted
     let snap = w.snapshot();
     if snap.channels.iter().find(|c| c.name == "#p").map_or(true, |c| !c.users.is_empty()) {
         out.push(finding("lattice:empty", format!("#p not empty/persisting after both left (bits {:#x})", bits)));
@@ -1011,6 +1019,16 @@ pub fn c16_lattice_case(bits: u32) -> Vec<Finding> {
             Some(r) if r == want => {}
             other => out.push(finding("lattice:ranks-rejoin", format!("listed nick re-joined #p with ranks {:?}, configured {:?} (bits {:#x})", other, want, bits))),
         }
+    }
+    // the users end their sessions: nothing of them is left, #p persists
+    m!(w.send(1, "QUIT"));
+    m!(w.send(0, "QUIT"));
+    for (name, msg) in crate::spec::rep_invariants(&w.snapshot()) {
+        out.push(finding("lattice:invariant", format!("after the sessions ended (bits {:#x}): {}: {}", bits, name, msg)));
+    }
+    let snap = w.snapshot();
+    if snap.users.iter().any(|u| u.nick == "lis" || u.nick == "other") || snap.channels.iter().find(|c| c.name == "#p").map_or(true, |c| !c.users.is_empty()) {
+        out.push(finding("lattice:teardown", format!("after lis and other quit: users {:?}, #p members {:?} (bits {:#x})", snap.users.iter().map(|u| u.nick.clone()).collect::<Vec<_>>(), snap.channels.iter().find(|c| c.name == "#p").map(|c| c.users.iter().map(|u| u.nick.clone()).collect::<Vec<_>>()), bits)));
     }
     for (i, c) in w.conns.iter().enumerate() {
         if let Life::Panicked(msg) = &c.life {
